@@ -163,7 +163,7 @@ class LoadLog(object):
         # coordinate components even if the transform is an identity transform.
         n_coords = len([comp for comp in self.components
                         if isinstance(comp, CoordinateComponent)])
-        if n_coords == self.components[0].ndim * 2:
+        if n_coords == sum(data.ndim for data in self.data) * 2:
             force_coords = True
         else:
             force_coords = False
